@@ -577,7 +577,8 @@ impl Exec {
         // C09 credit accounting: forward barriers / resurrect mark on the spot and are credited
         if self.opts.c09 && ph0 != 0 && !st.pacing_changed && st.neg_adjust == 0.0 && st.pos_adjust == 0.0 && self.bk[ai].c09.tracked {
             let earned = debt0 + st.allocs as f64 - debt1;
-            if earned > 0.0 && debt1 > 0.0 {
+            // both readings must be unclamped, or the difference says nothing about credits
+            if earned > 0.0 && debt1 > 0.0 && debt0 > 0.0 {
                 self.bk[ai].c09.credits += earned;
             }
         }
@@ -1239,6 +1240,12 @@ impl Exec {
             self.violate("C14", "handle-drop-panicked", format!("drop of handle {hi}: {}", obs::panic_message(&*p)));
         }
         self.model.handles[hi].alive = false;
+        // dropping a handle changes reachability without any barrier: for the exactness clause of
+        // C07 it is a mutation of the issuing arena
+        let ha = self.model.handles[hi].arena as usize;
+        if ha < self.bk.len() {
+            self.bk[ha].mutated_since_wake = true;
+        }
         self.handle_op_quiet(ev0, &others, "drop of a handle");
     }
 
